@@ -330,19 +330,21 @@ func VerifC02_LengthField() {
 	c02Check(data)
 }
 
-// VerifC02_WideLeaf: one item with a 1-byte length field: symbolic format code (all 64), symbolic
-// claimed length (all 256), over 9 (thorough 17) fully symbolic bytes: the 2/4/8-byte element
-// types with zero, one (two) elements, lengths that are not a multiple of the width, lengths
-// beyond the input, and a trailing byte after the item.
+// VerifC02_WideLeaf: one item of a multi-byte element type (the eight format codes of width 2, 4,
+// 8) with a 1-byte length field: claimed length symbolic in 0..tail+2 over tail = 9 (thorough 17)
+// fully symbolic bytes: zero, one (two) elements, lengths that are not a multiple of the width,
+// lengths beyond the input, trailing bytes after the item. (Shorter inputs with every format code
+// are in AllShort.)
 func VerifC02_WideLeaf() {
 	vsymExpect("accepted")
 	vsymExpect("rejected")
-	fc := vsymU8() & 0x3F
+	fc := []byte{0o30, 0o32, 0o34, 0o40, 0o44, 0o50, 0o52, 0o54}[vsymChoose(8)]
 	tail := 9
 	if vsymTier() == 1 {
 		tail = 17
 	}
-	data := []byte{fc<<2 | 1, vsymU8()}
+	l := vsymChoose(tail + 3)
+	data := []byte{fc<<2 | 1, byte(l)}
 	data = append(data, vsymBytes(tail)...)
 	c02Check(data)
 }
